@@ -540,3 +540,31 @@ Proof.
   rewrite <- (app_nil_r (concat _)). rewrite read_tpairs_export; [|assumption|unfold ulong_max; lia].
   cbn [app]. now rewrite Hperm.
 Qed.
+
+(* ---- TMCG_PublicKey ----------------------------------------------------------------------------- *)
+Definition nobar (s : bytes) : Prop := Forall (fun c => c <> bar) s.
+Definition wf_pubkey (k : pubkey) : Prop := nobar (pk_name k) /\ nobar (pk_email k) /\ nobar (pk_type k) /\ nobar (pk_nizk k).
+
+Lemma magic_nobar_pub : Forall (fun c => c <> bar) magic_pub.
+Proof. repeat constructor; discriminate. Qed.
+
+Theorem pubkey_roundtrip k : wf_pubkey k -> import_pubkey (export_pubkey k) = Some k.
+Proof.
+  intros (Hn & He & Ht & Hz). destruct k as [name email type m y nizk sig]. cbn [pk_name pk_email pk_type pk_nizk] in *.
+  unfold import_pubkey, export_pubkey. cbn [pk_name pk_email pk_type pk_m pk_y pk_nizk pk_sig].
+  cbn [app]. rewrite cm_magic by apply magic_nobar_pub.
+  unfold field. rewrite <- ?app_assoc. cbn [app].
+  rewrite split_at_app by exact Hn. rewrite split_at_app by exact He. rewrite split_at_app by exact Ht.
+  change (encode62 m ++ bar :: encode62 y ++ bar :: nizk ++ bar :: sig)
+    with (encode62 m ++ [bar] ++ encode62 y ++ [bar] ++ (nizk ++ bar :: sig)).
+  pose proof (read_write_fields [m; y] (nizk ++ bar :: sig)) as R.
+  unfold write_fields in R. cbn [map concat length] in R. rewrite <- ?app_assoc in R. cbn [app] in R.
+  cbn [app]. rewrite R.
+  rewrite split_at_app by exact Hz. reflexivity.
+Qed.
+
+(* the guard is necessary: a '|' inside the name shifts every later field *)
+Example pubkey_bar_in_name_refuted :
+  let k := {| pk_name := [65; bar; 66]; pk_email := [101]; pk_type := [116]; pk_m := 5%Z; pk_y := 7%Z; pk_nizk := [110]; pk_sig := [115] |} in
+  import_pubkey (export_pubkey k) <> Some k.
+Proof. vm_compute. discriminate. Qed.
